@@ -286,7 +286,7 @@ void execute(const Workload& w, Result& res) {
     if (sim::modn(sim::cfg_at(w, 0), 2) == 0) run_history(w, res); else run_concurrent(w, res);
 }
 
-const sim::HarnessDef def = {"C12", true, 120, generate, execute, nullptr};
+const sim::HarnessDef def = {"C12", true, 30, generate, execute, nullptr};
 
 } // namespace
 
